@@ -32,6 +32,7 @@ type lsmTracer struct {
 	nInstall int
 	nCompact int
 	nGets    int
+	nScore, nScoreGE1 int
 	bad      bool
 }
 
@@ -223,6 +224,24 @@ func (t *lsmTracer) drain() {
 			}
 			t.c.Lean(sb.String(), "ok")
 			t.nInstall++
+			// differential tie of the scoring (lean/GoLevel/Model/Score.lean): the model's computeCompaction on this version
+			// with the real trigger and level limits must leave the cLevel / cScore >= 1 the real one left
+			sb.Reset()
+			cl := "none"
+			// a version without levels: -1 when computeCompaction ran, 0 for the initial version newVersion() made (never
+			// scored); either way cScore < 1 and nobody reads cLevel
+			if v.CLevel >= 0 && len(v.Levels) > 0 {
+				cl = fmt.Sprint(v.CLevel)
+			}
+			fmt.Fprintf(&sb, "lsm score %d %d %s %v %d", v.ID, t.r.O.GetCompactionL0Trigger(), cl, v.ScoreGE1, len(v.Levels))
+			for l := range v.Levels {
+				fmt.Fprintf(&sb, " %d", t.r.O.GetCompactionTotalSize(l))
+			}
+			t.c.Lean(sb.String(), "ok")
+			t.nScore++
+			if v.ScoreGE1 {
+				t.nScoreGE1++
+			}
 		case "c.flush":
 			rec, _ := ev.args[1].(*leveldb.VerifRecord)
 			if rec == nil || len(rec.Added) != 1 {
